@@ -22,9 +22,15 @@
 (*         a unit set the harness generates for the schema.  The statement *)
 (*         names no rule on units: different unit sets leave a pair open.) *)
 (*   [kind: "bool"] [kind: "pattern"] [kind: "any"]                        *)
-(*   [kind: "enum_int" | "enum_string", values: SUBSET Int, named: BOOLEAN]*)
-(*        (string enum values are tokens; the harness renders n as "v<n>"; *)
-(*         named = every value carries a display name)                     *)
+(*   [kind: "enum_int" | "enum_string", values: SUBSET Int, named: BOOLEAN,*)
+(*        spell: "token" | "rune" | "mixed"]                               *)
+(*        (named = every value carries a display name.  spell is how a     *)
+(*         STRING enum writes its value n: "token" as the text "v<n>",     *)
+(*         "rune" as the one-character string whose code point is n - the  *)
+(*         string Go's integer-to-string conversion yields, e.g. 65 -> "A" *)
+(*         -, "mixed" the least value as a rune and the others as tokens.  *)
+(*         A string enum {"A","B"} and the integer enum {65,66} are of     *)
+(*         different base kinds whatever the spelling.)                    *)
 (*   [kind: "list", items: Schema, min: Opt, max: Opt, impl: "plain"|"typed"]*)
 (*   [kind: "map", keys: Schema, vals: Schema, min: Opt, max: Opt,         *)
 (*        impl: "plain" | "typed"]                                         *)
@@ -38,7 +44,13 @@
 (*         typed wrapper NewTypedObject[T]; the contract does not depend   *)
 (*         on it, the code's reflection-based gates might)                 *)
 (*        Prop = [name: STRING, required: BOOLEAN, type: Schema,           *)
-(*                has_default: BOOLEAN, disabled: BOOLEAN]                 *)
+(*                has_default: BOOLEAN, disabled: BOOLEAN,                 *)
+(*                conflicts, required_if, required_if_not: SUBSET STRING]  *)
+(*        (the last three: rules between the FIELDS OF A VALUE - "not      *)
+(*         together with q", "required when q is set", "required when     *)
+(*         none of q.. is set"; see RulesHold.  They apply when DATA is    *)
+(*         checked; a producer SCHEMA's property map is not a value with   *)
+(*         all its fields set, so schema comparison never consults them.)  *)
 (*        (has_default: the property declares a default value - the        *)
 (*         harness renders one that fits the type; disabled: the property  *)
 (*         was switched off with .Disable(reason).  Both concern the USE   *)
@@ -49,7 +61,9 @@
 (*         is still itself.)                                               *)
 (*   [kind: "ref", id: STRING]           (resolved in the enclosing scope) *)
 (*   [kind: "scope", root: STRING, objects: SUBSET object]                 *)
-(*   [kind: "oneof", disc: "string" | "int", field: STRING,                *)
+(*   [kind: "oneof", disc: "string" | "int", field: STRING, inline: BOOLEAN,*)
+(*        (inline: the discriminator is a declared property of every       *)
+(*         member - of the discriminator's kind - instead of an extra key) *)
 (*        members: SUBSET [key: Int, obj: object | ref | scope]]           *)
 (*   Opt = [some: BOOLEAN, v: Int]       (some = FALSE: the bound is nil)  *)
 (*                                                                         *)
@@ -71,18 +85,23 @@ Scalar(k, mn, mx)      == ScalarU(k, mn, mx, "none")
 BoolS                   == [kind |-> "bool"]
 PatternS                == [kind |-> "pattern"]
 AnyS                    == [kind |-> "any"]
-Enum(k, vs, named)     == [kind |-> k, values |-> vs, named |-> named]
+EnumS(k, vs, named, sp) == [kind |-> k, values |-> vs, named |-> named, spell |-> sp]
+Enum(k, vs, named)     == EnumS(k, vs, named, "token")
 ListI(it, mn, mx, impl) == [kind |-> "list", items |-> it, min |-> mn, max |-> mx, impl |-> impl]
 List(it, mn, mx)       == ListI(it, mn, mx, "plain")
 MapI(ks, vs, mn, mx, impl) == [kind |-> "map", keys |-> ks, vals |-> vs, min |-> mn, max |-> mx, impl |-> impl]
 Map(ks, vs, mn, mx)    == MapI(ks, vs, mn, mx, "plain")
-PropX(n, t, req, dflt, dis) == [name |-> n, required |-> req, type |-> t, has_default |-> dflt, disabled |-> dis]
+PropR(n, t, req, dflt, dis, cf, ri, rin) ==
+    [name |-> n, required |-> req, type |-> t, has_default |-> dflt, disabled |-> dis,
+     conflicts |-> cf, required_if |-> ri, required_if_not |-> rin]
+PropX(n, t, req, dflt, dis) == PropR(n, t, req, dflt, dis, {}, {}, {})
 Prop(n, t, req)        == PropX(n, t, req, FALSE, FALSE)
 ObjectI(id, ps, unenf, impl) == [kind |-> "object", id |-> id, props |-> ps, id_unenforced |-> unenf, impl |-> impl]
 Object(id, ps, unenf)  == ObjectI(id, ps, unenf, "plain")
 Ref(id)                == [kind |-> "ref", id |-> id]
 Scope(root, objs)      == [kind |-> "scope", root |-> root, objects |-> objs]
-OneOf(disc, f, ms)     == [kind |-> "oneof", disc |-> disc, field |-> f, members |-> ms]
+OneOfI(disc, f, ms, inl) == [kind |-> "oneof", disc |-> disc, field |-> f, members |-> ms, inline |-> inl]
+OneOf(disc, f, ms)     == OneOfI(disc, f, ms, FALSE)
 Member(k, o)           == [key |-> k, obj |-> o]
 
 \* ------------------------------------------------------------------ families
@@ -140,13 +159,31 @@ Keys(S)      == {m.key : m \in S.members}
 
 RuleRange(A, B)       == A.kind = B.kind /\ A.kind \in {"int", "float"} /\ Disjoint(A, B)
 RuleSize(A, B)        == A.kind = B.kind /\ A.kind \in {"string", "list", "map"} /\ Disjoint(A, B)
-RuleEnumValue(A, B)   == A.kind = B.kind /\ A.kind \in {"enum_int", "enum_string"} /\ ~(B.values \subseteq A.values)
+\* the concrete values of an enum: the integers, or the strings as <<spelling, n>>
+LeastOf(vs) == CHOOSE n \in vs : \A m \in vs : n <= m
+SpellOf(S, n) == IF S.spell = "rune" \/ (S.spell = "mixed" /\ n = LeastOf(S.values)) THEN "rune" ELSE "token"
+Conc(S) == IF S.kind = "enum_string" THEN {<<SpellOf(S, n), n>> : n \in S.values} ELSE {<<"int", n>> : n \in S.values}
+RuleEnumValue(A, B)   == A.kind = B.kind /\ A.kind \in {"enum_int", "enum_string"} /\ ~(Conc(B) \subseteq Conc(A))
 RuleID(OA, OB)        == ~OA.id_unenforced /\ ~OB.id_unenforced /\ OA.id # OB.id
 RuleUndeclared(OA, OB) == PropNames(OB) \ PropNames(OA) # {}
 \* "lacking a required one": whether the consumer also declares a default for it (p.has_default) or has
 \* it disabled is deliberately NOT consulted - the producer's schema does not offer the property
 RuleMissing(OA, OB)   == \E p \in OA.props : p.required /\ p.name \notin PropNames(OB)
+\* "a one-of with another discriminator": the field NAME differs - whether either side inlines the
+\* discriminator, and whatever the members declare (members that carry both candidate fields are pairwise
+\* compatible; the producer still discriminates on a field the consumer does not read)
 RuleDiscriminator(A, B) == A.field # B.field
+
+\* DATA mode (not this property's subject; stated to keep the two modes apart): the rules between fields hold
+\* for a value whose set fields are "present".  Schema mode has no such set - Reasons never calls this, and
+\* CompatMC checks that clearing every rule (Plain) changes no reason.
+RulesHold(O, present) ==
+    \A p \in O.props :
+        IF p.name \in present
+        THEN p.conflicts \cap present = {}
+        ELSE /\ ~p.required
+             /\ p.required_if \cap present = {}
+             /\ (p.required_if_not # {} => p.required_if_not \cap present # {})
 RuleMember(A, B)      == Keys(A) \ Keys(B) # {}
 
 \* Reasons(A, B, ta, tb, seen): the set of rules by which consumer A (references resolved
@@ -187,7 +224,7 @@ Reasons(A, B, ta, tb, seen) ==
 
 MustReject(A, B) == Reasons(A, B, {}, {}, {}) # {}
 
-\* Plain(S): S with every property's default and disabled flag cleared.  The rejection rules are stated
+\* Plain(S): S with every property's default and disabled flag and its rules between fields cleared.  The rejection rules are stated
 \* on the structure of the two schemas only; CompatMC checks MustReject(A, B) = MustReject(Plain(A), Plain(B))
 \* with the same reasons on every pair (a default or a disabled flag neither excuses nor causes a rejection).
 RECURSIVE Plain(_)
@@ -231,8 +268,9 @@ VerdictOK(A, B, verdict) ==
 \* Schemas the constructors accept and the documented caveats: min <= max where both are
 \* set (without it a schema would have to be rejected against itself), enums and one-ofs are
 \* non-empty, map keys are int / string / enum, object IDs are unique within a scope, the
-\* root and every reference resolve, one-of members are objects that do not declare the
-\* discriminator field themselves (not inlined), defaults are declared on properties of scalar kinds
+\* root and every reference resolve, one-of members are objects that declare the discriminator field
+\* - with the discriminator's kind - exactly when the one-of inlines it, the rules between fields name
+\* other properties of the same object, defaults are declared on properties of scalar kinds
 \* only (the harness has to render a value of the type).
 \* struct-mapped and typed objects are bound to ONE Go struct of the harness with a field for each of these
 \* names; they have no ID-unenforced variant; scope tables and one-of members hold plain or mapped objects
@@ -250,7 +288,10 @@ WF(S, table) ==
     CASE S.kind \in {"int", "float", "string"} ->
             BoundsOK(S) /\ S.units \in UnitSets /\ (S.kind = "string" => S.units = "none")
       [] S.kind \in {"bool", "pattern", "any"} -> TRUE
-      [] S.kind \in {"enum_int", "enum_string"} -> S.values # {}
+      [] S.kind \in {"enum_int", "enum_string"} ->
+            /\ S.values # {} /\ S.spell \in {"token", "rune", "mixed"}
+            /\ (S.kind = "enum_int" => S.spell = "token")
+            /\ (S.spell # "token" => \A n \in S.values : n >= 33 /\ n <= 126)     \* printable one-character strings
       [] S.kind = "list" -> BoundsOK(S) /\ WF(S.items, table)
                             /\ S.impl \in {"plain", "typed"}
                             /\ (S.impl = "typed" => S.items.kind \in TypedItemKinds)
@@ -261,6 +302,7 @@ WF(S, table) ==
       [] S.kind = "object" ->
             /\ \A p \in S.props, q \in S.props : p.name = q.name => p = q
             /\ \A p \in S.props : WF(p.type, table) /\ (p.has_default => p.type.kind \in DefaultKinds)
+            /\ \A p \in S.props : (p.conflicts \cup p.required_if \cup p.required_if_not) \subseteq (PropNames(S) \ {p.name})
             /\ S.impl \in {"plain", "mapped", "typed"}
             /\ S.impl # "plain" => (~S.id_unenforced /\ PropNames(S) \subseteq MappedNames)
       [] S.kind = "ref" -> Declared(table, S.id)
@@ -275,7 +317,11 @@ WF(S, table) ==
                   /\ m.obj.kind \in {"object", "ref", "scope"}
                   /\ (m.obj.kind = "object" => m.obj.impl # "typed")
                   /\ WF(m.obj, table)
-                  /\ S.field \notin PropNames(Denote(m.obj, table).obj)
+                  /\ LET O == Denote(m.obj, table).obj IN
+                        IF S.inline
+                        THEN /\ S.field \in PropNames(O)
+                             /\ PropOf(O, S.field).type.kind = (IF S.disc = "string" THEN "string" ELSE "int")
+                        ELSE S.field \notin PropNames(O)
       [] OTHER -> FALSE
 
 WellFormed(S) == WF(S, {})
